@@ -130,6 +130,20 @@ Theorem C08_double_put_refuted :
 Proof. exact double_put_refuted. Qed.
 Print Assumptions C08_double_put_refuted.
 
+(* Scratch objects of the crypto helpers (the hash.Hash of an RSA-OAEP call): when every call works
+   on its own object, for EVERY interleaving of the callers' Reset / Write / Sum steps every Sum
+   returns the digest of exactly the caller's own writes since its Reset. *)
+Theorem C08_scratch_per_call_isolated : forall hid, (forall a b, hid a = hid b -> a = b) ->
+  forall es h0, snd (hrun hid (h0, []) es) = hexpect es (fun t => h0 (hid t)).
+Proof. exact scratch_per_call_isolated. Qed.
+Print Assumptions C08_scratch_per_call_isolated.
+
+(* With ONE package-level object for all callers (not what the tree does) it is false. *)
+Theorem C08_shared_scratch_refuted :
+  exists es, snd (hrun (fun _ => 0) (fun _ => [], []) es) <> hexpect es (fun _ => []).
+Proof. exact shared_scratch_refuted. Qed.
+Print Assumptions C08_shared_scratch_refuted.
+
 (* Default cron parser: the package variable is never written and every ParseStandard result is
    the pure parse of the caller's own argument. *)
 Theorem C08_parser_stateless : forall R (parse : Z -> list N -> R) es s0,
